@@ -23,7 +23,13 @@ func OpenBlocking(dir string, opts Options) (BlockingLog, error) {
 	if err != nil {
 		return nil, err
 	}
-	return WrapBlocking(l)
+	bl, err := WrapBlocking(l)
+	if err != nil {
+		// a failed open must not keep the directory locked
+		_ = l.Close()
+		return nil, err
+	}
+	return bl, nil
 }
 
 // WrapBlocking wraps a [Log] with support for blocking consume
